@@ -245,7 +245,7 @@ def callReassigns (tbl : List MethodRec) (O : Oracles) (fields : List (String ×
 
 /-- `Structure.__setattr__` refuses an immutable structure only once `_instantiated` is set;
     `__delitem__` and the wrappers' guards look at the class alone -/
-def stepI (bound : Bool) (tbl : List MethodRec) (O : Oracles) (c : ClassOpts) (fields : List (String × FieldDecl))
+def stepI (bound dh : Bool) (tbl : List MethodRec) (O : Oracles) (c : ClassOpts) (fields : List (String × FieldDecl))
     (x : Inst) (op : Op) : Inst × Outcome :=
   match op with
   | .setattr f v =>
@@ -262,17 +262,18 @@ def stepI (bound : Bool) (tbl : List MethodRec) (O : Oracles) (c : ClassOpts) (f
               then x.nones.filter (fun n => n != f) else x.nones
     ({ x with attrs := r.1, nones := ns }, r.2)
   | op =>
-    -- `bound`: which nested-wrapper model applies (`Generated.nestedBound`, read off the code)
+    -- `bound` / `dh`: which nested-wrapper model applies and whether `del x[k]` runs the `__validate__` hook
+    -- (`Generated.nestedBound`, `Generated.delitemHook`, read off the code)
     -- (the delete-runs-the-hook flag is irrelevant here: the pairs suite installs no __validate__ hook)
-    let r := stepB bound false tbl O c fields x.attrs op
+    let r := stepB bound dh tbl O c fields x.attrs op
     ({ x with attrs := r.1 }, r.2)
 
-def runI (bound : Bool) (tbl : List MethodRec) (O : Oracles) (c : ClassOpts) (fields : List (String × FieldDecl)) :
+def runI (bound dh : Bool) (tbl : List MethodRec) (O : Oracles) (c : ClassOpts) (fields : List (String × FieldDecl)) :
     Inst → List Op → Inst × List Outcome
   | x, [] => (x, [])
   | x, op :: rest =>
-    let r := stepI bound tbl O c fields x op
-    let t := runI bound tbl O c fields r.1 rest
+    let r := stepI bound dh tbl O c fields x op
+    let t := runI bound dh tbl O c fields r.1 rest
     (t.1, r.2 :: t.2)
 
 /-- which of the two instances an operation is applied to -/
@@ -280,16 +281,16 @@ inductive Side where | orig | copy
 deriving Repr, DecidableEq, Inhabited
 
 /-- an interleaved history on a pair (original, copy); every outcome is tagged with its side -/
-def run2 (bound : Bool) (tbl : List MethodRec) (O : Oracles) (c : ClassOpts) (fields : List (String × FieldDecl)) :
+def run2 (bound dh : Bool) (tbl : List MethodRec) (O : Oracles) (c : ClassOpts) (fields : List (String × FieldDecl)) :
     Inst × Inst → List (Side × Op) → (Inst × Inst) × List (Side × Outcome)
   | p, [] => (p, [])
   | p, (.orig, op) :: rest =>
-    let r := stepI bound tbl O c fields p.1 op
-    let t := run2 bound tbl O c fields (r.1, p.2) rest
+    let r := stepI bound dh tbl O c fields p.1 op
+    let t := run2 bound dh tbl O c fields (r.1, p.2) rest
     (t.1, (.orig, r.2) :: t.2)
   | p, (.copy, op) :: rest =>
-    let r := stepI bound tbl O c fields p.2 op
-    let t := run2 bound tbl O c fields (p.1, r.1) rest
+    let r := stepI bound dh tbl O c fields p.2 op
+    let t := run2 bound dh tbl O c fields (p.1, r.1) rest
     (t.1, (.copy, r.2) :: t.2)
 
 /-- the part of a tagged list that belongs to one side -/
